@@ -63,6 +63,9 @@ EXTRA_SHIMS = ['cvxpy recorder stub (robust target only; see C03)']
 def cases(tier, seed):
     lst = THOROUGH if tier == 'thorough' else QUICK
     out = [(cid, dict(kind='slp', shape=SHAPE_OF[cid], kw=dict(kw), boundary=b, S=S)) for cid, kw, b, S in lst]
+    # the present/future boundary given as datetime / string / numpy datetime64 instead of a pandas Timestamp
+    for form in ('datetime', 'str', 'datetime64'):
+        out.append(('boundary_given_as_%s' % form, dict(kind='slp', shape='contract_storage', kw=dict(T=3), boundary=1, S=1, sf_form=form)))
     for cid, shape, kw, S in (('robust_contract_storage', 'contract_storage', dict(T=2), 2), ('robust_two_node', 'two_node', dict(T=2), 1),
                               ('robust_mip_orderbook_full_exec', 'orderbook', dict(T=2, full_exec=True, orders=((0, 2, 2.0), (1, 2, -1.5))), 1),
                               ('robust_mip_storage_no_simult', 'contract_storage', dict(T=2, storage_kw=dict(no_simult_in_out=True)), 1)):
@@ -188,7 +191,7 @@ def scenario_prices(D, prices, T, boundary, S):
     return out
 
 
-def scenario(D, shape, kw, boundary, S):
+def scenario(D, shape, kw, boundary, S, sf_form=None):
     eao = lift.import_eao()
     sh = shapes.build_portfolio(D, shape, **kw)
     tg = sh.tg
@@ -203,6 +206,12 @@ def scenario(D, shape, kw, boundary, S):
     sh3 = shapes.build_portfolio(D, shape, **kw)
     op_in = sh3.portf.setup_optim_problem(sh3.prices, sh3.tg)
     start_future = shapes.tstep(sh3.tg, boundary)
+    if sf_form == 'datetime':
+        start_future = pd.Timestamp(start_future).to_pydatetime()
+    elif sf_form == 'str':
+        start_future = str(pd.Timestamp(start_future))
+    elif sf_form == 'datetime64':
+        start_future = np.datetime64(pd.Timestamp(start_future))
     slp = eao.stoch_lin_prog.make_slp(op_in, sh3.portf, sh3.tg, start_future, [dict(s) for s in samples])
     scenario.last_shape = sh3          # the portfolio object the SLP was built from (for output extraction, C04)
     return sh, op_base, scen_ops, slp
@@ -253,9 +262,9 @@ def blocks(slp_lp, base_lp, T, boundary):
     return maps, present, S
 
 
-def run_slp(rec, seed, shape, kw, boundary, S):
+def run_slp(rec, seed, shape, kw, boundary, S, sf_form=None):
     def build(D):
-        r = scenario(D, shape, kw, boundary, S)
+        r = scenario(D, shape, kw, boundary, S, sf_form)
         # the lower bound of the property fixes the present to a single-scenario solution (fix_time_window up to the boundary): the variables
         # that get pinned must be exactly the present-stage decisions of the two-stage program
         sh4 = shapes.build_portfolio(D, shape, **kw)
@@ -367,7 +376,7 @@ def observe(case, kwargs, env, rq):
             o['c'] = [float(v) for v in sh2.portf.setup_optim_problem(smp, sh2.tg).c]
         return o
     D = lift.Domain(theta=env)
-    sh, op_base, scen_ops, slp = scenario(D, kw['shape'], kw['kw'], kw['boundary'], kw['S'])
+    sh, op_base, scen_ops, slp = scenario(D, kw['shape'], kw['kw'], kw['boundary'], kw['S'], kw.get('sf_form'))
     o = dict(slp=obs.problem_obs(slp))
     if rq.get('kind') == 'replay' and rq.get('info', {}).get('kind') == 'fix_present':
         i = rq['info']['i']
